@@ -1,5 +1,6 @@
 import AsynqModel.Sexp
 import AsynqModel.Lib.Tools
+import AsynqModel.Lib.ToolsX
 /-! driver glue for mode `tools` (property C14): elements are identity tokens (Nat), the async functions are
     tables indexed by token -/
 namespace AsynqModel.Drv.Tools
@@ -11,6 +12,8 @@ structure Attr where
   truthy : Bool
   ord : Option Int
   blocks : Bool
+  fails : Option Nat := none     -- class of the exception the per-element call raises for this element
+  delay : Nat := 0               -- asyncio mode: event-loop round trips of the per-element call
   deriving Inhabited
 
 def attr? : Sexp → Option Attr
@@ -19,6 +22,15 @@ def attr? : Sexp → Option Attr
       | .atom "none" => some none
       | x => x.int?.map some)
     some { key := (← k.int?), pred := (← p.bool?), truthy := (← t.bool?), ord := ord, blocks := (← b.bool?) }
+  | .list [k, p, t, o, b, f, d] => do
+    let ord ← (match o with
+      | .atom "none" => some none
+      | x => x.int?.map some)
+    let fails ← (match f with
+      | .atom "none" => some none
+      | x => x.nat?.map some)
+    some { key := (← k.int?), pred := (← p.bool?), truthy := (← t.bool?), ord := ord, blocks := (← b.bool?),
+           fails := fails, delay := (← d.nat?) }
   | _ => none
 
 def envOf (u : Array Attr) : Env Nat :=
@@ -27,6 +39,27 @@ def envOf (u : Array Attr) : Env Nat :=
     truthy := fun t => (u[t]?.map (·.truthy)).getD false
     ord := fun t => (u[t]?.bind (·.ord))
     blocks := fun t => (u[t]?.map (·.blocks)).getD false }
+
+def mode? : Sexp → Option Mode
+  | .atom "asynq" => some .asynq
+  | .atom "asyncio" => some .asyncio
+  | _ => none
+
+/-- `(ext <mode> <eager> <fnAuto>)`: engine, eager function, attribute-happy function object; absent = the plain case -/
+def ext? (u : Array Attr) : Sexp → Option (Ext Nat)
+  | .list [.atom "ext", m, e, a] => do
+    some { fails := fun t => (u[t]?.bind (·.fails)), delay := fun t => (u[t]?.map (·.delay)).getD 0,
+           mode := (← mode? m), eager := (← e.bool?), fnAuto := (← a.bool?) }
+  | _ => none
+
+def extOf (u : Array Attr) (body : List Sexp) : Ext Nat :=
+  let rec go : List Sexp → Option (Ext Nat)
+    | [] => none
+    | x :: xs => match ext? u x with
+      | some e => some e
+      | none => go xs
+  (go body).getD { fails := fun t => (u[t]?.bind (·.fails)), delay := fun t => (u[t]?.map (·.delay)).getD 0,
+                   mode := .asynq, eager := false, fnAuto := false }
 
 def kind? : Sexp → Option IterKind
   | .atom "list" => some .list
@@ -123,13 +156,15 @@ def describe (m i : Obs Nat) : String :=
   else if m.flushes != i.flushes then short s!"flushes: model={m.flushes} impl={i.flushes}"
   else s!"sleeps: model={m.sleeps} impl={i.sleeps}"
 
-/-- `body` = (univ ..) (call ..) (obs ..) [(builtin ..)] -/
+/-- `body` = (univ ..) (call ..) [(ext ..)] (obs ..) [(builtin ..)]; judged in the second layer (Lib/ToolsX.lean), which
+    is the first one for a case without `(ext ..)` and without failing keys (`C14x_plain`) -/
 def handle (id : Nat) (_hdr : List Sexp) (body : List Sexp) : String :=
   match findMap univ? body, findMap call? body, findMap obs? body with
   | some u, some c, some impl =>
     let env := envOf u
-    let model := observe (run env c)
-    let want := expected env c
+    let x := extOf u body
+    let model := observeX env x c
+    let want := expectedX env x c
     -- the Python built-in, run by the harness on the same input, must be what the Lean reference says
     let refOk := match findMap builtin? body with
       | some b => b == want.res
@@ -142,8 +177,8 @@ def handle (id : Nat) (_hdr : List Sexp) (body : List Sexp) : String :=
         -- the generator only produces such calls when told that they belong to the statement
         (if c.inStatement then "" else "call outside the statement of C14 (amax/amin with default=)")
       else describe model impl
-    let spec := specClause env c impl
-    let specm := specClause env c model
+    let spec := specClauseX env x c impl
+    let specm := specClauseX env x c model
     let f (s : String) := if s == "ok" then "ok" else "fail:" ++ s
     let cs := if corr then "ok" else "diff"
     s!"R {id} CORR={cs} SPEC={f spec} SPECM={f specm} | {d.replace "\n" " "}"
